@@ -20,9 +20,9 @@ import (
 type fn struct{ name string }
 
 func (f *fn) Call(ctx data.Context) (data.GetValue, data.Control) { return data.NewNullValue(), nil }
-func (f *fn) GetName() string                                      { return f.name }
-func (f *fn) GetParams() []data.GetValue                           { return nil }
-func (f *fn) GetVariables() []data.Variable                        { return nil }
+func (f *fn) GetName() string                                     { return f.name }
+func (f *fn) GetParams() []data.GetValue                          { return nil }
+func (f *fn) GetVariables() []data.Variable                       { return nil }
 
 var pool = []string{"a", "b"}
 
